@@ -110,7 +110,11 @@ def merge_stats(path):
         tot["nontrivial"] += j["nontrivial"]
         for k, v in j["classes"].items():
             tot["classes"][k] = tot["classes"].get(k, 0) + v
-        tot["distinct"].update(j["distinct"])
+        if j.get("distinct"):
+            tot["distinct"].update(j["distinct"])
+        else:
+            # process died between periodic flushes: only the count survived; count them as distinct among themselves
+            tot["distinct"].update(f"{j['pid']}:{i}" for i in range(j.get("distinct_count", 0)))
         for s in j["samples"]:
             if len(tot["samples"]) < 8:
                 tot["samples"].append(s)
